@@ -764,6 +764,18 @@ def do_concat(I, name, args, kwargs, node):
             return concat_arrays(I, arrs, 0, node)
         return Top("vstack")
     if name == "stack":
+        # a new leading axis (axis=0 only): one entry per stacked array
+        if axis in (None, 0):
+            if isinstance(x, Lst) and items is None:
+                e = x.element()
+                if isinstance(e, Arr):
+                    return Arr([x.length] + list(e.axes), e.elem, e.space)
+            if items and all(isinstance(a, Arr) for a in items):
+                e = items[0]
+                for a in items[1:]:
+                    e = join(e, a)
+                if isinstance(e, Arr):
+                    return Arr([Ax(len(items))] + list(e.axes), e.elem, e.space)
         return Top("stack")
     if name == "hstack":
         axis = 1
